@@ -92,7 +92,7 @@ def eval_call(I, st, node):
     f = node.func
     # ---- syntactic special forms -------------------------------------------------------
     if isinstance(f, ast.Name):
-        if st.spec_depth > 0 and f.id in ("old", "forall", "exists", "let"):
+        if st.spec_depth > 0 and f.id in ("old", "forall", "exists", "let", "at_suspend", "ENTRY"):
             return spec_special(I, st, f.id, node)
         if f.id == "cast" and len(node.args) == 2:
             return I.eval(st, node.args[1])
@@ -255,6 +255,33 @@ def spec_special(I, st, name, node):
             return I.eval(st, node.args[0])
         finally:
             st.in_old = prev
+    if name == "at_suspend":
+        if st.suspend_heap is None:
+            return I.eval(st, node.args[0])     # no suspension happened on this path: the current state
+        saved = (st.heap, st.ghost)
+        st.heap, st.ghost = dict(st.suspend_heap), dict(st.suspend_ghost)
+        try:
+            return I.eval(st, node.args[0])
+        finally:
+            st.heap, st.ghost = saved
+    if name == "ENTRY":
+        env = st.frame.spec_env or {}
+        f = st.frame
+        while f is not None and "__entry_heap" not in (f.spec_env or {}):
+            f = f.parent
+        if f is None:
+            raise Unsupported("ENTRY() outside a loop invariant")
+        saved = st.heap
+        st.heap = dict(f.spec_env["__entry_heap"])
+        fr = Frame(st.frame.func, st.frame.module, parent=st.frame)
+        fr.spec_env = dict(f.spec_env["__entry_env"])
+        fr.vars = dict(f.spec_env["__entry_env"])
+        st.frames.append(fr)
+        try:
+            return I.eval(st, node.args[0])
+        finally:
+            st.frames.pop()
+            st.heap = saved
     if name in ("forall", "exists"):
         lam = node.args[0]
         if not isinstance(lam, ast.Lambda):
